@@ -54,22 +54,23 @@ func newSampleIterator(iter iterators.Iterator[entry], expr *logql.RangeAggregat
 	}
 
 	var (
-		by      []logql.Label
-		without []logql.Label
+		by      map[string]struct{}
+		without map[string]struct{}
 	)
 	if g := expr.Grouping; g != nil {
 		if g.Without {
-			without = g.Labels
+			without = buildSet(nil, g.Labels...)
 		} else {
-			by = g.Labels
+			// NOTE: `by ()` keeps no labels, so the set must be non-nil.
+			by = buildSet(map[string]struct{}{}, g.Labels...)
 		}
 	}
 
 	return &sampleIterator{
 		iter:    iter,
 		sampler: sampler,
-		by:      buildSet(nil, by...),
-		without: buildSet(nil, without...),
+		by:      by,
+		without: without,
 	}, nil
 }
 
